@@ -7,7 +7,7 @@ RULE = 'every strict prefix of small streams (<= 4.2 KB; <= 20 KB in thorough) a
 
 def check(run):
     from props import _stream
-    _stream.check(run, PID, CMD, RULE, extra_cmds=('rdm',))
+    _stream.check(run, PID, CMD, RULE, extra_cmds=('rdm', 'c09bs'))
 
 def replay(path):
     import json
